@@ -389,7 +389,7 @@ def units(tier, seed):
         if mode == "bounded":
             # one unit per world (not split by first deviation): the synthetic filter cases of an occupancy are
             # enumerated once per unit
-            us.append({"kind": "lifedesc", "desc": desc, "bound": b, "tier": tier})
+            us.append({"kind": "lifedesc", "desc": desc, "bound": min(b, desc.get("max_bound", b)), "tier": tier})
     descs = []
     shapes = shapes_h2()[::2] + shapes_h3_cover()[::3] if tier == "quick" else shapes_h2() + shapes_h3_cover()
     for k, eng in enumerate(shapes):
